@@ -27,8 +27,9 @@ LEN_LIST = _ops("len", "0", "1", "2", "3", "'x'", ("0", "..."), ("2", "..."), ("
 REFINEMENTS = {
     "int": (_ops("min", "0", "5", "6", "True", "-2**70", "1.5", "None") +
             _ops("max", "0", "5", "4", "False", "2**70", "'x'", "...")),
-    "float": (_ops("min", "0.0", "2.5", "3.5", "-0.0", "float('nan')", "float('-inf')", "1", "None") +
-              _ops("max", "0.0", "2.5", "-0.5", "float('nan')", "float('inf')", "3", "Nil") +
+    # incl. bounds that differ only below a declared precision (1.24 / 1.2, 0.04 / 0.0 at precision 1)
+    "float": (_ops("min", "0.0", "2.5", "3.5", "-0.0", "float('nan')", "float('-inf')", "1", "None", "1.24", "0.04") +
+              _ops("max", "0.0", "2.5", "-0.5", "float('nan')", "float('inf')", "3", "Nil", "1.2", "1.25") +
               _ops("precision", "0", "1", "2", "15", "16", "True", "1.5")),
     "str": (LEN_STR + _ops("alphabet", "''", "'abn'", "'ab'", "1") +
             _ops("contains", "''", "'nan'", "'z'", "None") +
